@@ -19,11 +19,14 @@ LABELS = {
                "d", "=", "{", "1", ",", "2", "}", ";", "END"],
     "blocks": ["GROUP", "=", "g", "a", "=", "1", "<m>", "END_GROUP", "=", "g", "OBJECT", "=", "o", "b", "=", "2.5",
                "k", "=", "v", "END_OBJECT", "z", "=", "0", "END"],
+    "units": ["a", "=", "(", "1", ",", "2", "<m>", ",", "3.5", "<km/s>", ")", "b", "=", "{", "1", "<m>", ",", "2", "<s>", "}",
+              "c", "=", "7", "<K>", "END"],
     "mixed": ["a", "=", "16#FF#", "b", "=", "-1", "c", "=", "2001-01-01", "d", "=", "12:00", "e", "=", "(", "1",
               "<m>", ",", "2", ")", "f", "=", "+1.5e3", "g", "=", "NULL"],
 }
-LABELS_BY_DIALECT = {"PVL": ("values", "blocks", "mixed"), "ODL": ("values", "blocks"), "PDS3": ("values", "blocks"),
-                     "ISIS": ("values", "blocks", "mixed"), "Omni": ("values", "blocks", "mixed")}
+LABELS_BY_DIALECT = {"PVL": ("values", "blocks", "mixed", "units"), "ODL": ("values", "blocks", "units"),
+                     "PDS3": ("values", "blocks", "units"), "ISIS": ("values", "blocks", "mixed", "units"),
+                     "Omni": ("values", "blocks", "mixed", "units")}
 PUNCT = set("=,(){};")
 
 
